@@ -1427,10 +1427,10 @@ fn main() {
             quiet_panics();
             // install the catcher's hook once, before any thread exists (its first installation is racy)
             wirefilter_ffi::panic::wirefilter_set_panic_catcher_hook();
-            // n rounds of 4 concurrent threads, one session each; per-thread sequence numbers order the events
-            let mut evs: Vec<Value> = Vec::new();
-            let mut id = 0u64;
-            for round in 0..n {
+            // n rounds of 4 concurrent threads, one session each; per-thread sequence numbers order the events.
+            // Every round runs in a process of its own: a panic that escapes an extern "C" function aborts the
+            // process, and that must be an observation, not the end of the harness.
+            if let Some(round) = a.get("round-child").and_then(|s| s.parse::<usize>().ok()) {
                 let hs: Vec<_> = (0..4usize).map(|t| {
                     let sd = seed * 1000 + (round * 4 + t) as u64;
                     std::thread::spawn(move || {
@@ -1438,12 +1438,34 @@ fn main() {
                         ffi::random_session(&mut r, round * 4 + t + 1, steps)
                     })
                 }).collect();
+                let mut outp = std::io::stdout().lock();
                 for h in hs {
-                    for mut e in h.join().unwrap() {
+                    for e in h.join().unwrap() {
+                        writeln!(outp, "{}", serde_json::to_string(&e).unwrap()).unwrap();
+                    }
+                }
+                std::process::exit(0);
+            }
+            let mut evs: Vec<Value> = Vec::new();
+            let mut id = 0u64;
+            let exe = std::env::current_exe().unwrap();
+            for round in 0..n {
+                let o = std::process::Command::new(&exe)
+                    .args(["gen-ffi", "--round-child", &round.to_string(), "--seed", &seed.to_string(), "--steps", &steps.to_string()])
+                    .output()
+                    .unwrap();
+                for line in String::from_utf8_lossy(&o.stdout).lines() {
+                    if let Ok(mut e) = serde_json::from_str::<Value>(line) {
                         e["id"] = json!(id);
                         id += 1;
                         evs.push(e);
                     }
+                }
+                if !o.status.success() {
+                    let null = json!({"null": true, "b": []});
+                    evs.push(json!({"id": id, "ev": "ffi", "fn": "process", "th": 0, "le_before": null, "le_after": null, "status": "process-died",
+                                    "rust_status": "ok", "same": false, "rust_err": {"have": false, "b": []}, "args": {"round": round}}));
+                    id += 1;
                 }
             }
             write_ndjson::<Value>(&format!("{out}/schemes.ndjson"), &[]);
